@@ -192,22 +192,31 @@ func (e *c13Engines) close() {
 	}
 }
 
+// c13Extra is the content of an optional second list (string-backed, the next
+// list id); empty = none.
+var c13Extra string
+
 func c13Build(content string, file string, shared bool) *c13Engines {
 	mk := func() *filterlist.RuleStorage {
+		var ls []filterlist.RuleList
 		if file != "" {
-			fl, err := filterlist.NewFileRuleList(1, file, false)
+			fl, err := filterlist.NewFileRuleList(0, file, false)
 			if err != nil {
 				panic(err)
 			}
-			s, err := filterlist.NewRuleStorage([]filterlist.RuleList{fl})
-			if err != nil {
-				panic(err)
-			}
-
-			return s
+			ls = append(ls, fl)
+		} else {
+			ls = append(ls, &filterlist.StringRuleList{ID: 0, RulesText: content})
+		}
+		if c13Extra != "" {
+			ls = append(ls, &filterlist.StringRuleList{ID: 1, RulesText: c13Extra})
+		}
+		s, err := filterlist.NewRuleStorage(ls)
+		if err != nil {
+			panic(err)
 		}
 
-		return util.Storage(content)
+		return s
 	}
 	e := &c13Engines{}
 	s1 := mk()
@@ -266,6 +275,15 @@ func c13Run(c *core.Ctx, idx int) {
 		c.Event("lists_with_rules_straddling_block_boundaries", 1)
 	}
 	content := util.Lines(lines)
+	// One history in three runs over two lists (the second one repeats some
+	// rules of the first and starts at the same offset).
+	c13Extra = ""
+	if c.Rng.Intn(3) == 0 {
+		extra := c13List(c)
+		extra = append(extra[:min(len(extra), 12)], lines[c.Rng.Intn(len(lines))], lines[c.Rng.Intn(len(lines))])
+		c13Extra = util.Lines(util.Shuffle(c.Rng, extra))
+		c.Event("histories_over_two_lists", 1)
+	}
 	file := ""
 	if c.Rng.Intn(2) == 0 {
 		dir, err := os.MkdirTemp(filepath.Join(c.Env.VerifDir, ".work"), "c13f.")
@@ -345,7 +363,7 @@ func c13Run(c *core.Ctx, idx int) {
 		derive := c.Rng.Intn(4) == 0 && len(dnsResults)+len(webResults)+len(slices) > 0
 		if derive {
 			// Derived computations on OLD results.
-			derivePanicked := c.Guard("derived-computation-on-old-result", nil, map[string]any{"list": lines, "history": hist}, func() {
+			derivePanicked := c.Guard("derived-computation-on-old-result", nil, map[string]any{"list": lines, "second_list": c13Extra, "history": hist}, func() {
 				switch k := c.Rng.Intn(3); {
 				case k == 0 && len(dnsResults) > 0:
 					r := dnsResults[c.Rng.Intn(len(dnsResults))]
@@ -382,13 +400,13 @@ func c13Run(c *core.Ctx, idx int) {
 			var dres *urlfilter.DNSResult
 			var mres *rules.MatchingResult
 			var all []*rules.NetworkRule
-			w := map[string]any{"list": lines, "history": hist, "file_backed": file != ""}
+			w := map[string]any{"list": lines, "second_list": c13Extra, "history": hist, "file_backed": file != ""}
 			if c.Guard("query", nil, w, func() { got, ks, dres, mres, all = c13Exec(under, o, i) }) {
 				return
 			}
 			c.Eval(1)
 			if got != want {
-				c.Violation("answer-depends-on-history:"+o.Kind, nil, map[string]any{"list": lines, "history": hist, "file_backed": file != "", "got": got, "fresh": want},
+				c.Violation("answer-depends-on-history:"+o.Kind, nil, map[string]any{"list": lines, "second_list": c13Extra, "history": hist, "file_backed": file != "", "got": got, "fresh": want},
 					"operation %d (%s) after %d earlier operations answers differently from a fresh engine:\n got:\n%s\n fresh:\n%s", i, o.key(), i, got, want)
 
 				return
@@ -414,7 +432,7 @@ func c13Run(c *core.Ctx, idx int) {
 		for _, k := range kept {
 			c.Eval(1)
 			if now := k.snap(); now != k.first {
-				c.Violation("earlier-result-changed", nil, map[string]any{"list": lines, "history": hist, "object": k.what, "before": k.first, "after": now},
+				c.Violation("earlier-result-changed", nil, map[string]any{"list": lines, "second_list": c13Extra, "history": hist, "object": k.what, "before": k.first, "after": now},
 					"%s (returned by operation %d) changed after operation %d (%s):\n before:\n%s\n after:\n%s", k.what, k.op, i, hist[len(hist)-1], k.first, now)
 
 				return
